@@ -26,6 +26,7 @@ import (
 	"encoding/json"
 	"fmt"
 	"io"
+	"log"
 	"net/http"
 	"net/http/httptest"
 	"net/url"
@@ -35,6 +36,7 @@ import (
 	"time"
 
 	"github.com/buzzfeed/sso/internal/auth"
+	"github.com/buzzfeed/sso/internal/auth/providers"
 	"github.com/buzzfeed/sso/internal/pkg/aead"
 	"github.com/buzzfeed/sso/internal/pkg/sessions"
 	"github.com/buzzfeed/sso/internal/pkg/templates"
@@ -251,7 +253,12 @@ func benignOf(data interface{}) interface{} {
 
 type world struct {
 	r       *c.Rng
-	proxyW  *c.ProxyWorld
+	proxyW  *c.ProxyWorld  // policy: allowed_email_domains [corp.test]
+	proxyG  *c.ProxyWorld  // policy: allowed_groups [g1]
+	fake    *c.FakeAuth
+	ctlR    *authWorld     // Authenticator built directly, scriptable provider, validators reject everybody
+	ctlA    *authWorld     // ... validators accept everybody
+	nSame   int
 	proxyT  interface{ ExecuteTemplate(io.Writer, string, interface{}) error }
 	authT   *templates.HTMLTemplate
 	auths   []*authWorld
@@ -263,6 +270,8 @@ type world struct {
 
 type authWorld struct {
 	mux     *auth.AuthenticatorMux
+	h       http.Handler             // what requests are served by (the mux, or one Authenticator's ServeMux)
+	tp      *providers.TestProvider  // only for the directly built authenticators
 	domains []string
 	cipher  aead.Cipher
 	last    interface{}
@@ -304,7 +313,7 @@ func buildAuth(domains []string) *authWorld {
 	c.Must(err)
 	cipher, err := aead.NewMiscreantCipher(sec)
 	c.Must(err)
-	w := &authWorld{mux: m, domains: domains, cipher: cipher}
+	w := &authWorld{mux: m, h: m, domains: domains, cipher: cipher}
 	auth.VerifRecordTemplateData(m, func(name string, data interface{}) { w.lastN, w.last = name, data })
 	return w
 }
@@ -312,7 +321,7 @@ func buildAuth(domains []string) *authWorld {
 func (a *authWorld) do(req *http.Request) *httptest.ResponseRecorder {
 	a.last, a.lastN = nil, ""
 	rec := httptest.NewRecorder()
-	a.mux.ServeHTTP(rec, req)
+	a.h.ServeHTTP(rec, req)
 	return rec
 }
 
@@ -351,8 +360,12 @@ func (w *world) render(svc int, page string, data interface{}) string {
 }
 
 func (w *world) pageCase(svc int, page string, data interface{}, real string, via int, how string) {
+	w.pageCaseB(svc, page, data, real, w.render(svc, page, benignOf(data)), via, how)
+}
+
+// pageCaseB: the benign body is given (the same call site reached with benign inputs).
+func (w *world) pageCaseB(svc int, page string, data interface{}, real, benign string, via int, how string) {
 	fs := fieldsOf(data)
-	benign := w.render(svc, page, benignOf(data))
 	coq := fmt.Sprintf("CPage %d %s %s\n %s\n %s %d", svc, bs(page), coqData(fs), bs(real), recipe(real, benign), via)
 	w.cases = append(w.cases, c.Case{Coq: coq, JSON: map[string]interface{}{
 		"kind": "page", "service": []string{"sso-proxy", "sso-auth"}[svc], "page": page, "how": how,
@@ -759,17 +772,23 @@ func (w *world) holeCase(h holeSpec, payload, got string) {
 func main() {
 	a := c.ParseArgs()
 	c.Quiet()
+	log.SetOutput(io.Discard) // net/http reports the cookie bytes it drops through the std logger
 	r := c.NewRng(a.Seed)
 	dir := c.Scratch(a.Out)
 	defer os.RemoveAll(dir)
 
 	fake := c.NewFakeAuth()
 	defer fake.Srv.Close()
-	yaml := "- service: svc\n  default:\n    from: " + proxyHost + "\n    to: 127.0.0.1:9\n    options:\n      allowed_email_domains: [\"example.com\"]\n"
+	yaml := "- service: svc\n  default:\n    from: " + proxyHost + "\n    to: 127.0.0.1:9\n    options:\n      allowed_email_domains: [\"corp.test\"]\n"
 	pw, err := c.BuildProxy(c.ProxyOpts{YAML: yaml, Valid: time.Hour, Dir: dir}, fake)
 	c.Must(err)
 
-	w := &world{r: r, proxyW: pw, proxyT: proxy.VerifGetTemplates(), authT: templates.NewHTMLTemplate()}
+	yamlG := "- service: svc\n  default:\n    from: " + proxyHost + "\n    to: 127.0.0.1:9\n    options:\n      allowed_groups: [\"g1\"]\n"
+	pg, err := c.BuildProxy(c.ProxyOpts{YAML: yamlG, Valid: time.Hour, Dir: dir}, fake)
+	c.Must(err)
+	w := &world{r: r, proxyW: pw, proxyG: pg, fake: fake, proxyT: proxy.VerifGetTemplates(), authT: templates.NewHTMLTemplate()}
+	w.ctlR = buildCtlAuth([]string{"corp.test"})
+	w.ctlA = buildCtlAuth([]string{"*"})
 	for _, d := range [][]string{{"example.com"}, {"@*"}, {"example.com", "example.org", "corp.test"}, nil} {
 		w.auths = append(w.auths, buildAuth(d))
 	}
@@ -801,14 +820,16 @@ func main() {
 			w.hole(h, p)
 		}
 	}
+	w.siteCorpus()
 	nCorpus := len(w.cases)
 
 	// ---- generated ----
 	n := a.N
-	nHandler := n / 12
-	nDirect := n / 12
+	nHandler := n / 24
+	nSites := n / 12
+	nDirect := n / 16
 	nJSON := n / 5
-	nHole := n - nHandler - nDirect - nJSON
+	nHole := n - nHandler - nDirect - nJSON - 2*nSites
 	for i := 0; i < nHandler; i++ {
 		aw := w.auths[r.Intn(len(w.auths))]
 		switch r.Intn(6) {
@@ -835,6 +856,9 @@ func main() {
 			}, genPayload(r)), jsonRoundTrip(genPayload(r)), false)
 		}
 	}
+	for i := 0; i < nSites; i++ {
+		w.siteRandom(r)
+	}
 	for i := 0; i < nDirect; i++ {
 		w.directPage(r)
 	}
@@ -852,7 +876,7 @@ func main() {
 	// spread the (large) page cases evenly over the shards so that coqc's work is balanced
 	var big, small []c.Case
 	for _, cs := range w.cases {
-		if strings.HasPrefix(cs.Coq, "CPage") {
+		if strings.HasPrefix(cs.Coq, "CPage") || strings.HasPrefix(cs.Coq, "CSame") {
 			big = append(big, cs)
 		} else {
 			small = append(small, cs)
@@ -872,5 +896,5 @@ func main() {
 		}
 	}
 	c.Must(c.WriteShards(a.Out, "Corr_C20", w.cases, a.Shard))
-	fmt.Printf("cases=%d corpus=%d pages=%d holes=%d json=%d\n", len(w.cases), nCorpus, w.nPages, w.nHoles, w.nJSON)
+	fmt.Printf("cases=%d corpus=%d pages=%d same=%d holes=%d json=%d\n", len(w.cases), nCorpus, w.nPages, w.nSame, w.nHoles, w.nJSON)
 }
